@@ -379,6 +379,8 @@ class Walker:
                             res = ("agg", "adt", x[2], x[3], [v])
                         else:
                             res = x
+                    elif x[0] == "errprop" and not info["key"].endswith("map_err"):
+                        res = x                  # an error passes through map unchanged
                 if isinstance(res, tuple) and res and res[0] == "fork":
                     opaque = ("call", info["key"], info["def"], args, site, info["targs"])
                     events.append(("call", site, info["key"], info["base_key"], info["def"], args, info["targs"], opaque))
